@@ -108,6 +108,20 @@ def gen(rng, tier):
         if rng.random() < 0.15:
             ops.append("Append 0 %d %d %s" % (ord(f), p, hx(rng.choice(["", "v=", "-", "[[", "0"]))))
         yield dict(family="text", vars=[x], ops=ops)
+    # (i') 'f' with the rounding position just above / at / just below the leading digit:
+    #      leading digit 4/5/6, exact ties (5), ties with a sticky tail, every mode
+    for _ in range(240 * n):
+        c = int(rng.choice(["5", "5", "5", "4", "6", "50", "51", "49", "500000000000000000001", "59", "5" + "0" * 19, "45", "55", "9", "1", "95", "99"]))
+        nd = ndigits(c)
+        e = rng.choice([-30, -7, -3, -2, -1, 0, 1, 2, 3, 20])          # exponent field: digits before the point
+        x = vlib.fin(c, e - nd, neg=rng.randint(0, 1), mode=rng.randint(0, 5), pad=rng.choice([0, 0, 1]),
+                     prec=rng.choice([None, nd + 3]))
+        p = -e + rng.choice([0, 0, 0, -1, 1, 2])
+        if p < 0:
+            continue
+        op = rng.choice(["Text 0 102 %d" % p, "Text 0 102 %d" % p, "Format 0 %d %d %d 102" % (rng.randint(0, 15), rng.choice([-1, 8]), p),
+                         "Append 0 102 %d %s" % (p, hx("x="))])
+        yield dict(family="f-leading-digit", vars=[x], ops=[op])
     # (ii) Format through a fmt.State with every flag set
     for _ in range(900 * n):
         x = value(rng)
